@@ -319,6 +319,14 @@ def build(tier="quick", seed=0):
             pack.add(Obligation(name, lambda tier, name=name, eng=eng, expr=expr: prove_paths(name, lambda: run_selector(eng, expr), lambda p: falsy(p.value), witness_of(expr, "interp" if eng == "Selector" else "compiled")), replay=replay_req(True), functions=fu,
                                 mode="attribute chains on a missing field x comparison operators x both engines (representative)"))
 
+    # the NAME of the missing field does not matter: also a name that the engine's own wrapper / matcher objects use for their attributes is missing when the record has no such field
+    for eng in ("Selector", "CompiledSelector"):
+        for fname in ("record", "rec", "data", "expression", "functions", "_record", "matcher", "code", "ns"):
+            for expr in (f"r.{fname} != 5", f"r.{fname} == r.{fname}", f"5 < r.{fname}", f"r.{fname} not in [1]"):
+                name = f"C08.fieldname[{eng}, {expr}]"
+                pack.add(Obligation(name, lambda tier, name=name, eng=eng, expr=expr: prove_paths(name, lambda: run_selector(eng, expr), lambda p: falsy(p.value), witness_of(expr, "interp" if eng == "Selector" else "compiled")), replay=replay_req(True), functions=fu,
+                                    mode="field names that coincide with attribute names of the engines' own objects x comparison operators x both engines"))
+
     pack.add(Obligation("C08.canary", run_canary, kind="canary"))
 
     # ---- engine vs CPython: the same expressions evaluated concretely by pyvc and natively by the real code
